@@ -500,13 +500,13 @@ int64_t cmi_pool_acquire_inner(struct cmb_resourcepool *rpp,
         /* Wait at the front door until some more becomes available  */
         cmb_assert_debug(rem_claim > 0u);
         const int64_t sig = cmb_resourceguard_wait(&(rpp->guard), is_available, NULL);
-        if (sig == CMB_PROCESS_PREEMPTED) {
-            /* Got thrown out instead, unwind. */
-            cmb_logger_info(stdout, "Preempted, returning empty-handed");
-
-            return sig;
-        }
-        else if (sig != CMB_PROCESS_SUCCESS) {
+        if (sig != CMB_PROCESS_SUCCESS) {
+            /*
+             * Interrupted, timed out, or preempted. If preempted from this
+             * pool, our record is gone and there is nothing left to put back,
+             * which the rollback below handles. If preempted from some other
+             * resource, we still hold what we took so far and roll that back.
+             */
             cmb_logger_info(stdout,
                             "Interrupted by signal %" PRId64 ", returning unchanged",
                             sig);
